@@ -22,6 +22,7 @@ class Stepper:
         self.effects: List[str] = []
         self.resolve = resolve or (lambda e: e)
         self.simplify = simplify  # applied to every (substituted) condition before it is evaluated
+        self.on_loop: Optional[Callable[[ast.stmt, Dict[str, ast.AST]], None]] = None  # abstract effect of a loop statement
 
     def atom(self, text: str, pol: bool = True) -> bool:
         if text not in self.assign:
@@ -93,6 +94,8 @@ class Stepper:
                     k, v = self.run(list(s.body) + list(s.orelse), env)
                 if k != "fall":
                     return k, v
+            elif isinstance(s, (ast.While, ast.For)) and self.on_loop is not None:
+                self.on_loop(s, env)
             else:
                 raise Unsupported(f"statement kind {type(s).__name__} at line {s.lineno}")
         return "fall", None
